@@ -193,6 +193,9 @@ pub fn want(c: &DdCase, p: &str) -> bool {
 pub fn body<D: Dd>(c: &DdCase) {
     let t = Table::new(&c.shape, c.rub.clone(), true);
     t.mon.lock().unwrap().expect_impacted = D::POOLED;
+    // the protocol monitor aborts a run at the first violation: keep it out of the way of the other properties'
+    // obligations (a wrong argument must then show up in THEIR values, e.g. through the bonus family)
+    t.mon.lock().unwrap().check_protocol = want(c, "C12");
     let roots = reachable_roots(&t);
     let rs = roots[c.root % roots.len()].clone();
     let (l0, m0) = (rs.layer, rs.mask);
